@@ -1,4 +1,5 @@
 import PyribsModel.Util
+import PyribsModel.Emit
 /-!
 # Dqd — model of the two DQD emitters (property C19)
 
@@ -13,7 +14,9 @@ Code shape (what mirrors what):
                               both `tell_dqd`s; the norms are *supplied* (they are square roots) and
                               `normOk` says what makes a supplied value admissible;
 * `gopCoeffs`, `gopBranch`, `gopObjOnly` ↔ `GradientOperatorEmitter.ask` (`_gradient_operator_emitter.py`):
-                              `noise[:, 0] = |noise[:, 0]|`, resp. `parents + jacobian[:, 0] * sigma_g`;
+                              `noise[:, 0] = |noise[:, 0]|`, resp. `parents + jacobian[:, 0] * sigma_g`
+                              (`Gop.askRows / askRowsObj` add the final `np.clip`; `Gop.step .askDqd` stores the
+                              rows it returns, i.e. the *clipped* perturbed parents);
 * `Gae.step`                ↔ `GradientArborescenceEmitter.ask_dqd / tell_dqd / ask / tell`;
 * `Gop.step`                ↔ `GradientOperatorEmitter.ask_dqd / tell_dqd / ask / tell`;
 * `newSols`, `numParents`, `ruleFires` ↔ the selection / restart block of `tell`, `_check_restart`;
@@ -242,13 +245,20 @@ structure Cfg where
   σg : Rat
   norm : Bool
   ε  : Rat
+  lo : Nat → Option Rat     -- lower_bounds (`none` = −∞)
+  hi : Nat → Option Rat     -- upper_bounds (`none` = +∞)
+
+/-- `np.clip(v, lower_bounds, upper_bounds)` -/
+def clipV (c : Cfg) (v : Vec) : Vec := fun k => Emit.clip1 (c.lo k) (c.hi k) (v k)
 
 structure St where
-  parents : List Vec                 -- what ask_dqd returned last
+  parents : List Vec                 -- `self._parents`: what ask_dqd **returned** last
   jac     : Option (List Mat)        -- one Jacobian per parent (None until tell_dqd)
 
 inductive Op
-  | askDqd (parents : List Vec)                 -- the sampled and perturbed parents (C08's business)
+  /-- `raw` = sampled parents + perturbation before the clip (which parents, which noise: C08's business);
+  ask_dqd clips them, **stores the clipped rows** and returns those same rows -/
+  | askDqd (raw : List Vec)
   | tellDqd (jacs : List (List (List Rat))) (norms : List (Nat → Rat))
   | ask (noise : List (Nat → Rat))              -- the coefficient draws (ignored when measure gradients are off)
   | tell
@@ -271,16 +281,20 @@ def normAll (c : Cfg) : List Mat → List (Nat → Rat) → Option (List Mat)
     | some Jn, some rest => some (Jn :: rest)
     | _, _ => none
 
+/-- measure gradients on: `np.clip(parents + Σ jacobian·noise, lo, hi)`, row by row -/
 def askRows (c : Cfg) : List Vec → List Mat → List (Nat → Rat) → List Vec
-  | p :: ps, J :: Js, z :: zs => gopBranch c.m p J z :: askRows c ps Js zs
+  | p :: ps, J :: Js, z :: zs => clipV c (gopBranch c.m p J z) :: askRows c ps Js zs
   | _, _, _ => []
 
+/-- measure gradients off: `np.clip(parents + jacobian[:, 0] * sigma_g, lo, hi)`, row by row -/
 def askRowsObj (c : Cfg) : List Vec → List Mat → List Vec
-  | p :: ps, J :: Js => gopObjOnly p J c.σg :: askRowsObj c ps Js
+  | p :: ps, J :: Js => clipV c (gopObjOnly p J c.σg) :: askRowsObj c ps Js
   | _, _ => []
 
 def step (c : Cfg) (s : St) : Op → St × Out
-  | .askDqd ps => ({ s with parents := ps }, .rows ps)
+  | .askDqd raw =>
+    let ps := raw.map (clipV c)
+    ({ s with parents := ps }, .rows ps)
   | .tellDqd jacs norms =>
     if !shapeOk c s jacs then (s, .error .value) else
     let Js := jacs.map matOfLists
